@@ -299,14 +299,13 @@ theorem drain_before_start_still_drains (ops : List Early.Op) (hu : Early.undist
   have hI := Early.uinv_fold ops ((Early.undisturbed_iff ops).mp hu) {} Early.uinv_init
   have hph := Early.polled_fold ops ok hpoll {}
   change Early.UInv (Early.run ops) at hI
-  change (Early.run ops).phase ≠ .unstarted at hph
-  cases hp : (Early.run ops).phase
-  · exact absurd hp hph
+  change Early.started (Early.run ops) at hph
+  rcases hph with hp | hp
   · have := (hI.ru hp).2.2.2; rw [hd] at this; exact absurd this (by simp)
   · have h3 := hI.st hp
     have h4 := hI.split
     rw [h3.1, List.append_nil] at h4
-    exact ⟨h4, rfl, h3.2.1⟩
+    exact ⟨h4, hp, h3.2.1⟩
 
 /-- … and whatever else happens (stops, kills, failing starts, any order): once a drain has
 returned, no later cast is accepted. -/
